@@ -41,11 +41,11 @@ EXPLANATION = (
     'conditions imply that the name slice is not empty (difference bounds over `name +/- constant`); R9 a token of a directive line is indexed only '
     'under a length guard or IndexError handler; R10 after a placeholder is replaced the cmake scanner resumes behind the inserted value (symbolic '
     'effect of the loop-body row) and a row that replaces nothing never moves the scan position behind an `@` it only located; R4b also: the text opens of '
-    'do_conf_file (single-purpose I/O helpers inlined) agree on the encoding. A dispatch test written as a regex call is decided from the language of its constant pattern (match / anchored search with a leading blank-star: tolerant; unanchored search: accepts a directive in the middle of a line). NOT decided: the header forms when prefix / comment / epilogue come from a record returned by a helper (NamedTuple of per-format syntax); tokens of a #cmakedefine value that are set names being replaced by str(value) (legacy behaviour, kept '
+    'do_conf_file (single-purpose I/O helpers inlined) agree on the encoding. A dispatch test written as a regex call is decided from the language of its constant pattern (match / anchored search with a leading blank-star: tolerant; unanchored search: accepts a directive in the middle of a line). Module-level constants the tables read by name are folded: literals, tuples, constructor calls of plain record classes (NamedTuple / dataclass: unpacking and .field reads are projections) and leaf single-expression helpers (a text or an exception built by a tiny helper is read as the expression it abbreviates). R3 also: the nasm description comment enters the header only through one join over desc.splitlines() with every line prefixed `; `; R4b also: the template is cut into lines by the file object (readlines / list / iteration), not by str.splitlines(keepends=True), which cuts at more characters than the line terminators; R10 also: the resume position is <pos> + len(value), not beyond. NOT decided: the header forms when prefix / comment / epilogue come from a record *computed* by a multi-path helper (a function that returns a NamedTuple of per-format syntax); the cmake resume position when it is not linear in <pos> and len(<inserted value>); a description that contains the comment closer `*/` (c) ; tokens of a #cmakedefine value that are set names being replaced by str(value) (legacy behaviour, kept '
     'as is by R3); `#cmakedefineX` / `#mesondefineX` accepted by the prefix test of the dispatchers; backslash escapes in the cmake formats; the cmake scanner (index arithmetic over run-time '
     'strings); how many backslashes of a run the regex engine consumes for a concrete text (leftmost/greedy matching); whether a '
     'result that depends on the terminator/indentation reproduces it exactly (only independence is refuted); indentation of '
-    '#cmakedefine lines (the code slices line[1:], which observes the indentation); the nasm description comment; output bytes for '
+    '#cmakedefine lines (the code slices line[1:], which observes the indentation); output bytes for '
     'arbitrary templates.')
 ASSUMPTIONS = [
     're.sub copies the text outside matches and inserts what the callback returns without scanning it again',
@@ -188,7 +188,13 @@ def r1(ctx: RuleCtx) -> None:
     for s in sinks:
         where = f'{s.func}: {short(s.call)} [{s.what}]'
         if 'V' in s.tags:
-            ctx.violation(mod, s.func, s.call,
+            # the construct names the callee / scan method, not the caller's locals: a known finding must survive a rename of the arguments
+            callee = s.call.func
+            if s.what.startswith('text of '):
+                sink_role = 're.' + callee.attr if attr_chain(callee) and str(attr_chain(callee)).startswith('re.') else '<pattern>.' + getattr(callee, 'attr', '?')
+            else:
+                sink_role = norm(callee).split('.')[-1]
+            ctx.violation(mod, s.func, f'configuration value reaches the text scanned by {sink_role}',
                           f'a value read from the configuration data reaches {s.what}, i.e. the text scanned by {s.root}: '
                           f'the substituted value is scanned for placeholders again (path: {s.path})', s.call)
         elif any(t.startswith('U:') for t in s.tags):
@@ -294,16 +300,104 @@ def _scan_call(mod: Module, qn: str) -> T.Tuple[ast.Call, str, ast.AST]:
 # ---------------------------------------------------------------------------------------------
 # decision tables with symbolic text outcomes (R2 callback, R3)
 # ---------------------------------------------------------------------------------------------
-def _module_consts(mod: Module, fn: ast.AST) -> T.Dict[str, ast.AST]:
-    """Module-level constants (string / number literals) the function reads by name: folded into its tables (policy form a)."""
+def _record_fields(mod: Module, cls_name: str) -> T.Optional[T.List[T.Tuple[str, T.Optional[ast.AST]]]]:
+    """Fields (name, default) of a plain record class, in declaration order: a `typing.NamedTuple` subclass or a `@dataclass` whose body only
+    declares annotated fields (docstring allowed).  None for anything else."""
+    if not mod.has_cls(cls_name) or '.' in cls_name:
+        return None
+    cls = mod.cls(cls_name)
+    named = any(norm(b).split('.')[-1] == 'NamedTuple' for b in cls.bases)
+    data = any(norm(d.func if isinstance(d, ast.Call) else d).split('.')[-1] == 'dataclass' for d in cls.decorator_list)
+    if not (named or data) or (cls.bases and not named) or cls.keywords:
+        return None
+    fields: T.List[T.Tuple[str, T.Optional[ast.AST]]] = []
+    for b in cls.body:
+        if isinstance(b, ast.Expr) and isinstance(b.value, ast.Constant):
+            continue
+        if isinstance(b, ast.AnnAssign) and isinstance(b.target, ast.Name):
+            fields.append((b.target.id, b.value))
+        else:
+            return None
+    return fields or None
+
+
+def _module_value(mod: Module, v: ast.AST, depth: int = 0) -> T.Optional[ast.AST]:
+    """Constant-folded module-level value (policy form a): literals, lambdas that close over nothing but their parameters, tuples of those, and
+    constructor calls of plain record classes (NamedTuple / dataclass), which become a tuple of the field values in declaration order that
+    remembers the field names (`_c14_fields`), so that both unpacking and `.field` reads are projections of a display."""
+    import copy
+    if isinstance(v, ast.Constant) and isinstance(v.value, (str, int)):
+        return v
+    if depth > 3:
+        return None
+    if isinstance(v, ast.Name) and mod.has_assign(v.id):
+        return _module_value(mod, mod.assign_value(v.id), depth + 1)
+    if isinstance(v, ast.Lambda):
+        own = {a.arg for a in v.args.posonlyargs + v.args.args + v.args.kwonlyargs}
+        free = {n.id for n in ast.walk(v.body) if isinstance(n, ast.Name) and n.id not in own}
+        import builtins
+        if all(hasattr(builtins, x) for x in free):
+            return copy.deepcopy(v)
+        return None
+    if isinstance(v, ast.Tuple) and v.elts and not any(isinstance(x, ast.Starred) for x in v.elts):
+        elts = [_module_value(mod, x, depth + 1) for x in v.elts]
+        if all(x is not None for x in elts):
+            return ast.Tuple(elts=T.cast(T.List[ast.expr], elts), ctx=ast.Load())
+        return None
+    if isinstance(v, ast.Call) and isinstance(v.func, ast.Name):
+        fields = _record_fields(mod, v.func.id)
+        if fields is None or any(isinstance(a, ast.Starred) for a in v.args) or any(k.arg is None for k in v.keywords) or len(v.args) > len(fields):
+            return None
+        given: T.Dict[str, ast.AST] = {nm: a for (nm, _), a in zip(fields, v.args)}
+        for k in v.keywords:
+            if k.arg in given or k.arg not in {nm for nm, _ in fields}:
+                return None
+            given[T.cast(str, k.arg)] = k.value
+        elts2: T.List[ast.expr] = []
+        for nm, dflt in fields:
+            src = given.get(nm, dflt)
+            val = _module_value(mod, src, depth + 1) if src is not None else None
+            if val is None:
+                return None
+            elts2.append(T.cast(ast.expr, val))
+        rec = ast.Tuple(elts=elts2, ctx=ast.Load())
+        rec._c14_fields = [nm for nm, _ in fields]  # type: ignore[attr-defined]
+        return rec
+    return None
+
+
+def _module_consts(mod: Module, fn: ast.AST, depth: int = 0) -> T.Dict[str, ast.AST]:
+    """What the function reads by name from module level, folded into its tables (policy form a): constants (string / number literals, constant
+    records and tuples, see _module_value), and *single-expression helpers* - a module-level `def h(x): [a = E1;] return E2` (or `h = lambda x: E2`)
+    is the lambda it abbreviates, so a call `h(arg)` inside a table is read as E2[x := arg] (extract-function / inline-function normal form:
+    a message or a line built by a tiny shared helper, an exception made by a factory and raised by the caller)."""
+    memo: T.Dict[T.Tuple[int, int], T.Tuple[ast.AST, T.Dict[str, ast.AST]]] = mod.__dict__.setdefault('_c14_module_consts', {})
+    hit = memo.get((id(fn), depth))
+    if hit is not None and hit[0] is fn:
+        return dict(hit[1])
     local = {n.id for n in ast.walk(fn) if isinstance(n, ast.Name) and isinstance(n.ctx, ast.Store)} | \
-        {a.arg for f_ in ast.walk(fn) if isinstance(f_, (ast.FunctionDef, ast.Lambda)) for a in f_.args.args + f_.args.kwonlyargs}
+        {a.arg for f_ in ast.walk(fn) if isinstance(f_, (ast.FunctionDef, ast.Lambda)) for a in f_.args.posonlyargs + f_.args.args + f_.args.kwonlyargs} | \
+        {f_.name for f_ in ast.walk(fn) if isinstance(f_, ast.FunctionDef) and f_ is not fn}
     out: T.Dict[str, ast.AST] = {}
+    memo[(id(fn), depth)] = (fn, out)
     for n in ast.walk(fn):
-        if isinstance(n, ast.Name) and isinstance(n.ctx, ast.Load) and n.id not in local and n.id not in out and mod.has_assign(n.id):
-            v = mod.assign_value(n.id)
-            if isinstance(v, ast.Constant) and isinstance(v.value, (str, int)):
+        if not (isinstance(n, ast.Name) and isinstance(n.ctx, ast.Load) and n.id not in local and n.id not in out):
+            continue
+        if mod.has_assign(n.id):
+            v = _module_value(mod, mod.assign_value(n.id))
+            if v is not None:
                 out[n.id] = v
+        elif mod.has_func(n.id) and depth < 2 and n.id != getattr(fn, 'name', None):
+            h = mod.func(n.id)
+            a = h.args
+            # only *leaf* helpers: one that refers to another function / class of the module is a stage of the pipeline the rules know by name
+            # (a scan, a transformer, the scanner object), not an abbreviation of a text
+            leaf = not any(isinstance(x, ast.Name) and x.id != h.name and (mod.has_func(x.id) or mod.has_cls(x.id)) for b_ in h.body for x in ast.walk(b_)) and \
+                not any(x.annotation is not None and 'ConfigurationData' in norm(x.annotation) for x in a.posonlyargs + a.args)
+            if leaf and isinstance(h, ast.FunctionDef) and not (a.vararg or a.kwarg or a.kwonlyargs) and not any(isinstance(x, (ast.Yield, ast.YieldFrom, ast.Await)) for x in ast.walk(h)):
+                lam = shape.as_lambda(h, _module_consts(mod, h, depth + 1))
+                if lam is not None:
+                    out[n.id] = lam
     return out
 
 
@@ -1457,6 +1551,52 @@ def _items_loop_as_key_loop(fn: ast.FunctionDef) -> ast.FunctionDef:
     return fn
 
 
+def _line_comment_form(lam: ast.Lambda) -> T.Any:
+    """Shape of a per-line comment renderer `lambda desc: TEXT`: (prefix of the first line, text between two lines, text after the last line) when the
+    description enters TEXT only through one join over its lines - `A + SEP.join(desc.splitlines()) + B` gives (A, SEP, B);
+    `A + SEP.join(P + l + Q for l in desc.splitlines()) + B` gives (A + P, Q + SEP + P, Q + B) - or 'RAW' when the description itself (not split into
+    lines) is an operand of the text.  Anything else: Undecided."""
+    if len(lam.args.args) != 1:
+        raise Undecided(f'description renderer with {len(lam.args.args)} parameters')
+    arg = lam.args.args[0].arg
+
+    def lines_of(e: ast.AST) -> bool:
+        return isinstance(e, ast.Call) and isinstance(e.func, ast.Attribute) and e.func.attr == 'splitlines' and not e.args and not e.keywords \
+            and isinstance(e.func.value, ast.Name) and e.func.value.id == arg
+
+    def lit(ps: T.Iterable[T.Any]) -> T.Optional[str]:
+        out = ''
+        for p_ in ps:
+            if not isinstance(p_, shape.Lit):
+                return None
+            out += p_.text
+        return out
+    ps = list(shape.parts(lam.body))
+    if any(isinstance(p_, shape.Op) and not p_.conv and p_.expr == arg for p_ in shape.flatten(ps)):
+        return 'RAW'
+    joins = [i for i, p_ in enumerate(ps) if isinstance(p_, shape.Op)]
+    if len(joins) != 1 or any(not isinstance(p_, (shape.Lit, shape.Op)) for p_ in ps):
+        raise Undecided(f'description renderer `{short(lam.body, 80)}`: not a text around one join over the lines of the description')
+    j = T.cast(shape.Op, ps[joins[0]]).node
+    a, b = lit(ps[:joins[0]]), lit(ps[joins[0] + 1:])
+    if not (isinstance(j, ast.Call) and isinstance(j.func, ast.Attribute) and j.func.attr == 'join' and isinstance(j.func.value, ast.Constant)
+            and isinstance(j.func.value.value, str) and len(j.args) == 1 and not j.keywords) or a is None or b is None:
+        raise Undecided(f'description renderer `{short(lam.body, 80)}`: operand `{short(j, 60)}` is not SEP.join(<lines of the description>)')
+    sep, it = j.func.value.value, j.args[0]
+    if lines_of(it):
+        return (a, sep, b)
+    if isinstance(it, (ast.GeneratorExp, ast.ListComp)) and len(it.generators) == 1 and not it.generators[0].ifs and isinstance(it.generators[0].target, ast.Name) \
+            and lines_of(it.generators[0].iter):
+        v = it.generators[0].target.id
+        eps = list(shape.parts(it.elt))
+        hit = [i for i, p_ in enumerate(eps) if isinstance(p_, shape.Op) and not p_.conv and p_.expr == v]
+        if len(hit) == 1:
+            p, q = lit(eps[:hit[0]]), lit(eps[hit[0] + 1:])
+            if p is not None and q is not None:
+                return (a + p, q + sep + p, q + b)
+    raise Undecided(f'description renderer `{short(lam.body, 80)}`: the joined sequence `{short(it, 60)}` is not the lines of the description')
+
+
 def _header_forms(ctx: RuleCtx, mod: Module) -> int:
     qn = '_dump_c_header'
     fn = _header_fn(mod)
@@ -1475,11 +1615,15 @@ def _header_forms(ctx: RuleCtx, mod: Module) -> int:
     n = 0
     pref_names: T.Set[str] = set()
     desc_fn: T.Dict[bool, ast.AST] = {}
+    loop_reads = {x.id for x in ast.walk(loop) if isinstance(x, ast.Name) and isinstance(x.ctx, ast.Load)}
     for r in T.cast(T.List[shape.XRow], pre.rows):
         isc = [v for a, v in r.conds.items() if a.kind == 'cmp' and a.args[0] == 'eq' and a.args[1] == fmt_p[0] and a.args[2] == "'c'"]
         if len(isc) != 1:
             raise Undecided(f'{qn}: prelude row without a test of the format against "c": {r!r}')
-        lits = {nm: v.value for nm, v in r.env.items() if isinstance(v, ast.Constant) and v.value in ('#', '%')}
+        # the directive prefix, by role: a local bound to a string literal here that the entry loop reads
+        lits = {nm: v.value for nm, v in r.env.items() if isinstance(v, ast.Constant) and isinstance(v.value, str) and nm in loop_reads}
+        if not lits:
+            raise Undecided(f'{qn}: no local read by the entry loop is bound to a literal directive prefix on the row {r!r}')
         n += 1
         want = '#' if isc[0] else '%'
         ctx.require(set(lits.values()) == {want}, f'{qn}: directive prefix for {"c" if isc[0] else "nasm"} is {want!r}', mod, qn, f'directive prefix ({"c" if isc[0] else "nasm"})',
@@ -1493,7 +1637,24 @@ def _header_forms(ctx: RuleCtx, mod: Module) -> int:
         arg = lam.args.args[0].arg if lam.args.args else ''
         t = shape.render(shape.parts(lam.body), lambda op: 'DESC' if op.expr == arg else '?' + op.expr, lambda t_: None)
         ctx.require(t == '/* {DESC} */\n', f'{qn}: c description comment is /* DESC */', mod, qn, 'description comment (c)', f'the description is rendered as {t!r}; documented: /* DESC */', lam)
-    ctx.note(f'{qn}: nasm description comment (join over splitlines) is not decided')
+    if False in desc_fn:
+        # nasm has line comments only: every line of the description must be commented out, or the second and later lines of a multi-line
+        # description are written into the header as assembler text (the header then holds more than the defines of the data's keys)
+        lam = T.cast(ast.Lambda, desc_fn[False])
+        form = _line_comment_form(lam)
+        what = f'{qn}: nasm description comment: every line of the description is prefixed with `; `'
+        if form == 'RAW':
+            ctx.violation(mod, qn, 'description comment (nasm): description not split into lines',
+                          f'the nasm description comment is rendered as `{short(lam.body, 80)}`: the description is inserted as one piece, so only its first line '
+                          'is commented out - a description with a newline puts its remaining lines into the header as raw assembler text; '
+                          'documented: every line of the description prefixed with `; `', lam)
+        elif form != ('; ', '\n; ', '\n'):
+            ctx.violation(mod, qn, 'description comment (nasm): line prefix',
+                          f'the nasm description comment is rendered as `{short(lam.body, 80)}`: first line prefixed with {form[0]!r}, following lines separated by '
+                          f'{form[1]!r}, ended by {form[2]!r}; documented: every line prefixed with `; ` and ended by a newline', lam)
+        else:
+            ctx.ok(what)
+        n += 1
 
     def role(op: shape.Op) -> T.Optional[str]:
         if op.expr in pref_names:
@@ -1919,22 +2080,64 @@ def r4b(ctx: RuleCtx) -> None:
     data = calls[0].args[1] if len(calls[0].args) > 1 else kwarg(calls[0], 'data')
     src_p, dst_p = fn.args.args[0].arg, fn.args.args[1].arg
     o = fl.origins(data) if data is not None else set()
-    rd = [(w, c, f, m) for (w, c, f, m) in reads if f'call:{f}.readlines' in o]
-    allowed_r = {f'call:{f}.readlines' for _, _, f, _ in rd} | {'call:open', 'const'} | {f'param:{a.arg}' for a in fn.args.args} | \
+    dv = _single_def(fn, data) if data is not None else None
+    # how the text of the file becomes a list of lines - closed set of idioms over a handle F opened for reading:
+    #   F.readlines() | list(F) | tuple(F) | [*F] | [x for x in F]      the file's own lines: cut behind \n, \r\n, \r only, terminators kept   (exact)
+    #   F.read().splitlines(True)                                        terminators kept, but cut at every str.splitlines boundary            (extra cuts)
+    #   F.read().splitlines() | F.read().split(..)                       terminators dropped                                                    (lossy)
+    handles = {f for _, _, f, _ in reads}
+
+    def is_handle(e: ast.AST) -> T.Optional[str]:
+        for _ in range(3):
+            if isinstance(e, ast.Name) and e.id in handles:
+                return e.id
+            nxt = _single_def(fn, e) if isinstance(e, ast.Name) else e
+            if nxt is e or not isinstance(nxt, ast.Name):
+                return None
+            e = nxt
+        return None
+
+    def whole_text(e: ast.AST) -> T.Optional[str]:
+        e = _single_def(fn, e)
+        if isinstance(e, ast.Call) and isinstance(e.func, ast.Attribute) and e.func.attr == 'read' and not e.args and not e.keywords:
+            return is_handle(e.func.value)
+        return None
+    how: T.Optional[T.Tuple[str, str]] = None        # (kind, handle)
+    if isinstance(dv, ast.Call) and isinstance(dv.func, ast.Attribute) and dv.func.attr == 'readlines' and not dv.args and not dv.keywords and is_handle(dv.func.value):
+        how = ('exact', T.cast(str, is_handle(dv.func.value)))
+    elif isinstance(dv, ast.Call) and isinstance(dv.func, ast.Name) and dv.func.id in ('list', 'tuple') and len(dv.args) == 1 and not dv.keywords and is_handle(dv.args[0]):
+        how = ('exact', T.cast(str, is_handle(dv.args[0])))
+    elif isinstance(dv, (ast.List, ast.Tuple)) and len(dv.elts) == 1 and isinstance(dv.elts[0], ast.Starred) and is_handle(dv.elts[0].value):
+        how = ('exact', T.cast(str, is_handle(dv.elts[0].value)))
+    elif isinstance(dv, ast.ListComp) and len(dv.generators) == 1 and not dv.generators[0].ifs and isinstance(dv.generators[0].target, ast.Name) \
+            and isinstance(dv.elt, ast.Name) and dv.elt.id == dv.generators[0].target.id and is_handle(dv.generators[0].iter):
+        how = ('exact', T.cast(str, is_handle(dv.generators[0].iter)))
+    elif isinstance(dv, ast.Call) and isinstance(dv.func, ast.Attribute) and dv.func.attr in ('splitlines', 'split') and whole_text(dv.func.value):
+        keep_e = dv.args[0] if dv.args else kwarg(dv, 'keepends')
+        keep = dv.func.attr == 'splitlines' and keep_e is not None and isinstance(keep_e, ast.Constant) and bool(keep_e.value)
+        if dv.func.attr == 'splitlines' and keep_e is not None and not isinstance(keep_e, ast.Constant):
+            raise Undecided(f'do_conf_file: `{short(dv)}`: keepends is not a constant')
+        how = ('extra' if keep else 'lossy', T.cast(str, whole_text(dv.func.value)))
+    rd = [(w, c, f, m) for (w, c, f, m) in reads if how is not None and f == how[1]]
+    allowed_r = {f'call:{f}.readlines' for _, _, f, _ in rd} | {'call:open', 'const', 'call:list', 'call:tuple'} | {f'param:{a.arg}' for a in fn.args.args} | \
         {x for x in o if x.startswith('name:') and mod.has_assign(x[5:])}          # module-level constants (e.g. the newline mode)
     for _w, c_, _f, _m in reads + writes:
         allowed_r |= fl.origins(c_.args[0]) if c_.args else set()                  # how a file *name* was obtained says nothing about the lines read
-    ok = len(rd) == 1 and o <= allowed_r and f'param:{src_p}' in fl.origins(rd[0][1].args[0])
-    dv = _single_def(fn, data) if data is not None else None
-    lossy = isinstance(dv, ast.Call) and isinstance(dv.func, ast.Attribute) and (
+    lossy = how is not None and how[0] == 'lossy' or (isinstance(dv, ast.Call) and isinstance(dv.func, ast.Attribute) and (
         (dv.func.attr == 'splitlines' and not (dv.args and isinstance(dv.args[0], ast.Constant) and dv.args[0].value) and
          not (kwarg(dv, 'keepends') is not None and isinstance(kwarg(dv, 'keepends'), ast.Constant) and kwarg(dv, 'keepends').value))  # type: ignore[union-attr]
-        or dv.func.attr == 'split')
+        or dv.func.attr == 'split'))
+    ok = how is not None and how[0] == 'exact' and len(rd) == 1 and o <= allowed_r and f'param:{src_p}' in fl.origins(rd[0][1].args[0])
     if ok:
-        ctx.ok('do_conf_file: the lines given to do_conf_str are exactly readlines() of the source file')
+        ctx.ok(f'do_conf_file: the lines given to do_conf_str are the lines of the source file as the file object cuts them (`{short(dv)}`)')
     elif lossy:
-        ctx.violation(mod, 'do_conf_file', calls[0], f'the template lines are obtained by `{short(dv)}`, which drops the line terminators; they must be kept '
+        ctx.violation(mod, 'do_conf_file', 'template lines: line terminators dropped', f'the template lines are obtained by `{short(dv)}`, which drops the line terminators; they must be kept '
                       '(readlines() of a file opened with newline="")', calls[0])
+    elif how is not None and how[0] == 'extra' and len(rd) == 1:
+        ctx.violation(mod, 'do_conf_file', 'template lines: cut at every str.splitlines boundary', f'the template lines are obtained by `{short(dv)}`: str.splitlines also cuts behind '
+                      '\\x0b \\x0c \\x1c \\x1d \\x1e \\x85 \\u2028 \\u2029, which are not line terminators of the template (a file opened with newline="" ends lines at '
+                      '\\n, \\r\\n, \\r only): the text behind such a character is taken for the start of a template line, so a `#mesondefine` / `#cmakedefine` '
+                      'in the middle of a real line is rewritten instead of copied', calls[0])
     else:
         raise Undecided(f'do_conf_file: the `data` argument of do_conf_str has origins {sorted(o)}; cannot tell whether these are the unmodified lines of the source file')
     # result lines: written with writelines / write(''.join(..)) to the file that is then moved to dst
@@ -1960,7 +2163,8 @@ def r4b(ctx: RuleCtx) -> None:
     for _w, c_, _f, _m in reads + writes:
         name_o |= fl.origins(c_.args[0]) if c_.args else set()      # how a file name was obtained (temp-name helper, context manager) is not text
     ok = 'call:do_conf_str' in o2 and not any(x.startswith('call:') and x not in name_o and
-                                              x not in ('call:do_conf_str', f'call:{rd[0][2]}.readlines' if rd else '', 'call:open') for x in o2)
+                                              x not in ('call:do_conf_str', f'call:{rd[0][2]}.readlines' if rd else '', 'call:open') and
+                                              not (how is not None and dv is not None and x in fl.origins(dv)) for x in o2)     # the read side was judged above
     if not ok:
         raise Undecided(f'do_conf_file: the text written has origins {sorted(o2)}; cannot tell whether it is the unmodified list returned by do_conf_str')
     ctx.ok('do_conf_file: the lines written are the result of do_conf_str, unmodified')
@@ -2572,6 +2776,40 @@ def _lin(e: ast.AST) -> T.Optional[T.Tuple[str, int]]:
     return None
 
 
+def _linform(e: ast.AST) -> T.Optional[T.Tuple[T.Dict[str, int], int]]:
+    """Integer-linear normal form of an index expression: ({opaque term text: coefficient}, constant).  `i + len(v) - 1 + 1` ->
+    ({'i': 1, 'len(v)': 1}, 0).  Terms are names / calls / subscripts / attributes taken as opaque texts; anything else -> None."""
+    if isinstance(e, ast.Constant) and isinstance(e.value, int) and not isinstance(e.value, bool):
+        return ({}, e.value)
+    if isinstance(e, ast.UnaryOp) and isinstance(e.op, (ast.USub, ast.UAdd)):
+        x = _linform(e.operand)
+        if x is None:
+            return None
+        sg = -1 if isinstance(e.op, ast.USub) else 1
+        return ({t: sg * v for t, v in x[0].items()}, sg * x[1])
+    if isinstance(e, ast.BinOp) and isinstance(e.op, (ast.Add, ast.Sub)):
+        l, r = _linform(e.left), _linform(e.right)
+        if l is None or r is None:
+            return None
+        sg = 1 if isinstance(e.op, ast.Add) else -1
+        out = dict(l[0])
+        for t, v in r[0].items():
+            out[t] = out.get(t, 0) + sg * v
+        return (out, l[1] + sg * r[1])
+    if isinstance(e, ast.BinOp) and isinstance(e.op, ast.Mult):
+        l, r = _linform(e.left), _linform(e.right)
+        if l is None or r is None:
+            return None
+        if not l[0]:
+            return ({t: l[1] * v for t, v in r[0].items()}, l[1] * r[1])
+        if not r[0]:
+            return ({t: r[1] * v for t, v in l[0].items()}, r[1] * l[1])
+        return None
+    if isinstance(e, (ast.Name, ast.Attribute, ast.Call, ast.Subscript)):
+        return ({norm(e): 1}, 0)
+    return None
+
+
 def _cmake_family(mod: Module) -> T.List[str]:
     """The cmake scanner and everything it is made of: the function, its closures, and the methods of a record class it instantiates."""
     host = 'do_replacement_cmake'
@@ -2795,16 +3033,32 @@ def r10(ctx: RuleCtx) -> None:
                     if idx is None:
                         ctx.ok(f'{q}: after inserting `{short(val, 50)}` at `{pos}` the position is unchanged (the inserted text is scanned next)')
                         continue
-                    li = _lin(idx)
-                    if li is not None and li[0] == pos and li[1] >= 1:
-                        ctx.violation(mod, _family_name(q), f'scan position after a replacement: {pos} + {li[1]}',
+                    # idx - pos as a linear form over opaque terms: k * len(<inserted value>) + c
+                    lf = _linform(idx)
+                    if lf is None:
+                        raise Undecided(f'{q}: scan position after a replacement is `{norm(idx)}`')
+                    coef, c = lf
+                    coef[pos] = coef.get(pos, 0) - 1
+                    k = coef.pop(f'len({val})', 0)
+                    rest = {t_: v_ for t_, v_ in coef.items() if v_}
+                    if rest or k not in (0, 1) or c < 0:
+                        raise Undecided(f'{q}: scan position after a replacement is `{norm(idx)}`')
+                    last = r.path.events[-1].node if r.path.events else w
+                    if (k, c) == (0, 0):
+                        ctx.ok(f'{q}: after inserting `{short(val, 50)}` at `{pos}` the position is unchanged (the inserted text is scanned next)')
+                    elif k == 0:
+                        # the construct names roles, not locals: a known finding must survive a rename of the position / text / value variables
+                        ctx.violation(mod, _family_name(q), f'scan position after a replacement: <pos> + {c}',
                                       f'after `{tp} = {short(ln, 90)}` the scan position becomes `{norm(idx)}`, whatever the length of the inserted value: when the value is '
                                       f'empty the character that now stands at `{pos}` (the one right after the placeholder) is never examined, so an adjacent placeholder is '
-                                      f'copied out unreplaced (`@A@@B@` with A = "" gives `@B@`)', r.path.events[-1].node if r.path.events else w)
-                    elif f'len({val})' in norm(idx):
-                        ctx.ok(f'{q}: after inserting `{short(val, 50)}` scanning resumes at `{norm(idx)}`')
+                                      f'copied out unreplaced (`@A@@B@` with A = "" gives `@B@`)', last)
+                    elif c == 0:
+                        ctx.ok(f'{q}: after inserting `{short(val, 50)}` scanning resumes at `{norm(idx)}`, the first character behind the inserted value')
                     else:
-                        raise Undecided(f'{q}: scan position after a replacement is `{norm(idx)}`')
+                        ctx.violation(mod, _family_name(q), f'scan position after a replacement: <pos> + len(<value>) + {c}',
+                                      f'after `{tp} = {short(ln, 90)}` the scan position becomes `{short(idx, 90)}`: the inserted value ends at `{pos} + len(value) - 1`, so the '
+                                      f'{c} character(s) right behind it are never examined; a placeholder that starts directly after the replaced one is copied out unreplaced '
+                                      f'and, when undefined, not reported (`@A@@B@` with A = "x" gives `x@B@`)', last)
     ctx.floor('cmake scanner: rows that replace a placeholder', n, 1)
     # rows that replace nothing: the scan position must not be moved past a character that was located as an `@` - every `@` has to be
     # examined as the possible start of a placeholder (`a@b.org, @VAR@`: the `@` that closes the rejected span opens nothing, but the scan
